@@ -20,6 +20,19 @@ if h:
             c.tie_broken("model driver C13 failed", out[-2000:])
         else:
             mism = c.compare_obs(os.path.join(c.work, "impl.obs"), os.path.join(c.work, "model.obs"), "lookup/all")
+            # leg B: the model-written text (W cases of model.obs) through the real extractor
+            rc2, out2 = c.run([h], timeout=3000, envx={"C13_PHASE": "2"})
+            c.log.write(out2)
+            if rc2 != 0:
+                c.tie_broken("harness c13 (phase two: model-written text through the real extractor) crashed", out2[-2000:])
+            else:
+                mb = c.compare_obs(os.path.join(c.work, "legb.impl.obs"), os.path.join(c.work, "legb.want.obs"), "model text -> Extract")
+                if mb:
+                    c.tie_broken(
+                        "correspondence write_tokens_cid/write_tokens_tu (model text) read by cmap.Extract/ExtractToUnicode vs the original file: "
+                        "%d of the compared observations differ" % len(mb),
+                        [{"id": k, "extracted-from-model-text": a[:400], "original": b[:400]} for k, a, b in mb[:6]],
+                    )
             if mism:
                 # which entry points disagree (case kinds: C = SetMapping chain, T = NewToUnicodeFile chain,
                 # F/U = hand-made CID / ToUnicode file: lookup precedence, rangeIndex, codesInRange)
@@ -31,7 +44,11 @@ if h:
                 names = {"C": "set_mapping/lookup_cid/all_cid vs File.SetMapping/LookupCID/All",
                          "T": "new_tounicode/lookup_tu/all_tu/get_mapping vs NewToUnicodeFile/Lookup/All/GetMapping",
                          "F": "lookup_cid/all_cid (range_index, codes_in_range) vs File.LookupCID/All on hand-made files",
-                         "U": "lookup_tu/all_tu (range_index, codes_in_range, next_string) vs ToUnicodeFile.Lookup/All on hand-made files"}
+                         "U": "lookup_tu/all_tu (range_index, codes_in_range, next_string) vs ToUnicodeFile.Lookup/All on hand-made files",
+                         "WC": "write_tokens_cid vs the tokens of the embedded CMap stream (File.WriteTo)",
+                         "WT": "write_tokens_tu vs the tokens of the embedded ToUnicode stream (toUnicodeTmplNew)",
+                         "RC": "read_tokens_cid (on the tokens of the real stream) vs the structure cmap.Extract returns",
+                         "RT": "read_tokens_tu (on the tokens of the real stream) vs the structure cmap.ExtractToUnicode returns"}
                 bykind = {}
                 for k, a, b in mism:
                     bykind.setdefault(kinds.get(k, "?"), []).append((k, a, b))
@@ -50,13 +67,21 @@ c.finish(
         "(modelled as rune lists; a string that is not valid UTF-8 cannot be stored in a ToUnicode CMap)",
         "enumeration theorems assume at most limits.MaxCMapMappings (translated constant) entries, the documented budget of All()",
         "rangeIndex results are capped at math.MaxInt32 as the Go code documents (hypothesis i <= max_int32)",
+        "text level: files are well-formed (wf_ctext / wf_ttext: at most 100 code space ranges, non-empty codes, ranges of equal length with "
+        "first <= last, CIDs below 2^32, valid text); reading back sorts every list by code (the interpreter's endcmap), so the lookup corollaries "
+        "ask for notdef lists that are already sorted (nd_sorted_wf); the parent is a name in the text and resolved outside (PDF /UseCMap)",
+        "H-ps (Section hypothesis of cmap_bytes_rt / tounicode_bytes_rt only): the PostScript scanner turns the printed text back into the token list; "
+        "everything above the tokens (blocks, chunking, UTF-16BE, the CIDInit operators with their limits, readCMap/readToUnicode) is modelled and proved",
     ],
     trusted=[
-        "hand-written Gallina model coq/C13/CMapRanges.v of font/cmap/{mapping,tu-mapping,range,file,tounicode}.go, tied by correspondence",
-        "H-ps: the template-based CMap writer and the PostScript CMap reader are not modelled; the embed->reopen->extract "
-        "leg is exercised on the implementation only (failing-input search)",
+        "hand-written Gallina models coq/C13/CMapRanges.v (font/cmap/{mapping,tu-mapping,range,file,tounicode}.go) and coq/C13/CMapText.v "
+        "(the two templates, seehuhn.de/go/postscript cmap.go operators, readCMap/readToUnicode), tied by correspondence",
+        "the small PostScript tokenizer and printer of harness/c13/text.go (used to compare token lists and to feed model-written text to the real extractor)",
+        "not modelled: the interpreter's operation/memory budgets (MaxOps 10^6, 64 MiB), the PDF stream dictionary of an embedded CMap",
     ],
     partial=[
-        "embed/extract (WriteTo/readCMap/readToUnicode) has no theorem: checked on the implementation for every generated case",
+        "tounicode_text_rt carries the side condition blocks_depth_ok (operand stack of the PostScript interpreter); the statement without it, "
+        "tounicode_text_rt_full, is refuted (finding tounicode-extract-operand-stack-overflow); lists of at most 200 values always satisfy it",
+        "the byte level (cmap_bytes_rt, tounicode_bytes_rt) assumes H-ps: the scanner/printer pair is exercised by the harness, not proved",
     ],
 )
